@@ -766,6 +766,43 @@ var _ = late(func() {
 				r.undecided("xtime.JitterTicker.schedule|missing", token.NoPos, "anchor not found")
 				return
 			}
+			// the interval parameters, by role: the fields of the ticker that schedule (or a helper it calls) reads and never
+			// writes - d and jitter, or a struct field that groups them
+			tickerField := func(addr ssa.Value) string {
+				for {
+					fa, ok := addr.(*ssa.FieldAddr)
+					if !ok {
+						return ""
+					}
+					if isNamedType(fa.X.Type(), "xtime", "JitterTicker") {
+						return fieldName(fa.X.Type(), fa.Field)
+					}
+					addr = fa.X
+				}
+			}
+			read, written := map[string]bool{}, map[string]bool{}
+			for _, di := range deepInstrs(sch, 2) {
+				switch x := di.in.(type) {
+				case *ssa.UnOp:
+					if x.Op == token.MUL {
+						if f := tickerField(x.X); f != "" {
+							if _, isMu := derefType(x.Type()).(*types.Named); !isMu || !isNamedType(x.Type(), "sync", "Mutex") {
+								read[f] = true
+							}
+						}
+					}
+				case *ssa.Store:
+					if f := tickerField(x.Addr); f != "" {
+						written[f] = true
+					}
+				}
+			}
+			params := map[string]bool{}
+			for f := range read {
+				if !written[f] {
+					params[f] = true
+				}
+			}
 			for _, fn := range c.funcsOfPkg("xtime") {
 				var calls []*ssa.Call
 				instrs(fn, func(b *ssa.BasicBlock, i int, in ssa.Instruction) {
@@ -785,12 +822,8 @@ var _ = late(func() {
 					if !ok {
 						return
 					}
-					fa, ok := st.Addr.(*ssa.FieldAddr)
-					if !ok || !isNamedType(fa.X.Type(), "xtime", "JitterTicker") {
-						return
-					}
-					f := fieldName(fa.X.Type(), fa.Field)
-					if f != "d" && f != "jitter" {
+					f := tickerField(st.Addr)
+					if f == "" || !params[f] {
 						return
 					}
 					k++
